@@ -117,7 +117,7 @@ def _create_side(ctx, svc, create, host):
         callers = [c for c in K.calls(create.node)
                    if K.is_meth(c, host.name)]
         ctx.require(rid in host.params() and callers,
-                    'request id parameter of %s' % host.qualname)
+                    'request id parameter of %s' % host.qualname, rule='C17.4')
         for call in callers:
             passed = K.call_passes_as(call, host, create.params()[1])
             ctx.ob('C17.4', create, call, passed == rid,
@@ -127,7 +127,8 @@ def _create_side(ctx, svc, create, host):
     cgraph = ctx.cfg(host)
     creates = [n for n in cgraph.nodes if n.kind == 'test' and any(
         K.is_meth(c, '_safe_create') for c in K.test_calls(host, n))]
-    ctx.require(creates, '_safe_create tests in %s' % host.qualname)
+    ctx.require(creates, '_safe_create tests in %s' % host.qualname,
+        rule='C17.4')
     if host is create:
         sites += len(creates)
     for test in creates:
@@ -216,7 +217,7 @@ def _writers_package(ctx):
                                                         func.module.name),
                construct='presence writer %s' % func.module.name)
     ctx.require(inside >= 5, 'presence writes inside the known writers '
-                             '(found %d)' % inside)
+                             '(found %d)' % inside, rule='C17.3')
 
 
 def check(ctx):
@@ -229,7 +230,7 @@ def check(ctx):
     sc = svc.methods.get('_safe_create')
     sd = svc.methods.get('_safe_delete')
     ctx.require(sc is not None and sd is not None,
-                '_safe_create / _safe_delete')
+                '_safe_create / _safe_delete', rule='C17.1')
     # ---- C17.1 ---------------------------------------------------------
     pres = index.module(PRES)
     n = 0
@@ -242,7 +243,8 @@ def check(ctx):
                 ctx.ob('C17.1', func, sub,
                        isinstance(eph, ast.Constant) and eph.value is True,
                        'presence nodes are created ephemeral=True')
-    ctx.require(n >= 2, 'zkutils.create calls for presence nodes')
+    ctx.require(n >= 2, 'zkutils.create calls for presence nodes',
+        rule='C17.1')
     # registering never adopts a node that exists: after NodeExistsError the
     # only way to report success is a later create of our own
     for func in pres.live_functions():
@@ -282,7 +284,7 @@ def check(ctx):
                "is the client's")
     tests = [n for n in graph.nodes if n.kind == 'test' and
              'owner_session_id' in K.test_text(sc, n)]
-    ctx.require(tests, 'owner-session test in _safe_create')
+    ctx.require(tests, 'owner-session test in _safe_create', rule='C17.2')
     for test in tests:
         for edge in test.succ:
             if not any(_session_eq(a, False, sc)
@@ -326,7 +328,7 @@ def check(ctx):
                construct='session id source in %s' % func.name)
     dgraph = ctx.cfg(sd)
     dels = [n for n, c in K.nodes_calling(dgraph, _is_zk_write)]
-    ctx.require(dels, 'delete in _safe_delete')
+    ctx.require(dels, 'delete in _safe_delete', rule='C17.2')
     for node in dels:
         ok = K.guarded_by(dgraph, node, lambda e: any(
             _session_eq(a, True, sd) for a in nz.facts_of_edge(e)))
@@ -343,30 +345,30 @@ def check(ctx):
                     ctx.ob('C17.3', inner, sub, func in (sc, sd),
                            'ZooKeeper writes of the presence service happen '
                            'only in _safe_create / _safe_delete')
-    ctx.require(count >= 3, 'ZooKeeper writes of the service')
+    ctx.require(count >= 3, 'ZooKeeper writes of the service', rule='C17.4')
     # ---- C17.4 ---------------------------------------------------------
     create = svc.methods.get('on_create_request')
     delete = svc.methods.get('on_delete_request')
     ctx.require(create is not None and delete is not None,
-                'on_create_request / on_delete_request')
+                'on_create_request / on_delete_request', rule='C17.4')
     hosts = [f for f in svc.live_methods() if f is not sc and any(
         K.is_meth(c, '_safe_create') for c in K.calls(f.node))]
-    ctx.require(hosts, 'callers of _safe_create')
+    ctx.require(hosts, 'callers of _safe_create', rule='C17.4')
     sites = 0
     for host in hosts:
         sites += _create_side(ctx, svc, create, host)
     ctx.require(sites >= 3, '_safe_create tests in on_create_request '
-                            '(found %d)' % sites)
+                            '(found %d)' % sites, rule='C17.4')
     # delete side
     did = delete.params()[1]
     dg = ctx.cfg(delete)
     dl = [n for n, c in K.nodes_calling(
         dg, lambda c: K.is_meth(c, '_safe_delete'))]
-    ctx.require(dl, '_safe_delete call in on_delete_request')
+    ctx.require(dl, '_safe_delete call in on_delete_request', rule='C17.4')
     for node in dl:
         loop = K.enclosing_for(dg, node)
         ctx.require(loop is not None, 'loop of the deletions in '
-                                      'on_delete_request')
+                                      'on_delete_request', rule='C17.4')
         dom = loop.ast.iter
         ddefs = M.local_defs(delete)
         for _hop in range(4):
@@ -474,7 +476,8 @@ def check(ctx):
                    K.guarded_by(graph, node, host_eq, start=loop),
                    'a presence node is deleted only when the host it '
                    'records *equals* this host')
-    ctx.require(n >= 3, 'deletes in EndpointPresence.unregister_*')
+    ctx.require(n >= 3, 'deletes in EndpointPresence.unregister_*',
+        rule='C17.5')
     # ... and those owner-checked routines are the only places of the module
     # where a running / endpoint / identity node is deleted: clean-up code
     # (kill_node, ...) goes through them, never around them
@@ -510,7 +513,7 @@ def check(ctx):
             defs[sub.targets[0].id] = N.txt(sub.value)
     dels = [n for n in graph.nodes for c in C.node_calls(n)
             if 'ensure_deleted' in N.txt(c)]
-    ctx.require(dels, 'delete in _unschedule')
+    ctx.require(dels, 'delete in _unschedule', rule='C17.5')
     unz = N.Normaliser(env=K.func_env(uns))
     want = 'zkclient.exists(z.path.placement(_HOSTNAME, %s))' % \
         uns.params()[1]
